@@ -24,6 +24,19 @@ def run_monitor(case):
     em = simutil.mk_event_map(lib.rng_for(case["seed"], case["idx"], 1352))
     us_ = lib.rng_for(case["seed"], case["idx"], 1351)
     srcs = [simutil.mk_source(m, us_) for m in modes]
+    # composition: some level-triggered sources are the outgoing lines of CHILD monitors (a tree of monitors); the child is
+    # part of the design, its own sources are driven at random, and what its line carries is this source's input
+    casc = lib.rng_for(case["seed"], case["idx"], 1355)
+    children = {}
+    for k in range(n):
+        if modes[k] == "level" and n <= 9 and casc.random() < 0.25:
+            cem = event.EventMap()
+            csrcs = [event.Source(trigger=casc.choice(["level", "rise"])) for _ in range(casc.randint(1, 3))]
+            for cs in csrcs:
+                cem.add(cs)
+            child = event.Monitor(cem) if casc.random() < .6 else event.Monitor(cem, trigger="level")
+            children[k] = (child, csrcs)
+            srcs[k] = child.src
     order = list(range(n))
     for k in order:
         em.add(srcs[k])
@@ -33,11 +46,12 @@ def run_monitor(case):
     pre = lib.rng_for(case["seed"], case["idx"], 1323).random() < 0.25
     if pre:
         Simulator(simutil.wrap(dut))       # a monitor may be elaborated more than once; the second elaboration is checked
-    sim = simutil.simulator(simutil.wrap(dut), case, p=0)
+    sim = simutil.simulator(simutil.wrap(dut, *[c_ for c_, _ in children.values()]), case, p=0)
     sim.add_clock(1e-6)
     lines = ["case " + " ".join(m[0] for m in modes)]
     obs, fails = [], []
-    stats = {"cycles": 0, "trg_and_clear": 0, "sources": n, "edge_sources": sum(m != "level" for m in modes), "pre_elaborated": int(pre)}
+    stats = {"cycles": 0, "trg_and_clear": 0, "sources": n, "edge_sources": sum(m != "level" for m in modes), "pre_elaborated": int(pre),
+             "cascaded_child_monitors": len(children)}
     style = rnd.choice(["random", "sparse", "busy"])
 
     async def tb(ctx):
@@ -49,7 +63,16 @@ def run_monitor(case):
             en = lib.bits(rnd, n) if n else 0
             cl = lib.bits(rnd, n) if n and rnd.random() < .5 else 0
             for k in range(n):
-                ctx.set(srcs[k].i, iv[k])
+                if k in children:
+                    child, csrcs = children[k]
+                    ctx.set(child.enable, (1 << len(csrcs)) - 1)
+                    ctx.set(child.clear, casc.getrandbits(len(csrcs)) if casc.random() < .5 else 0)
+                    for cs in csrcs:
+                        ctx.set(cs.i, int(casc.random() < .3))
+                else:
+                    ctx.set(srcs[k].i, iv[k])
+            for k in children:
+                iv[k] = ctx.get(srcs[k].i)            # what the child's line carries in this cycle
             ctx.set(dut.enable, en)
             ctx.set(dut.clear, cl)
             imask = sum(b << k for k, b in enumerate(iv))
@@ -102,6 +125,14 @@ def run_map(case):
     else:
         pool = [event.Source(trigger=rnd.choice(["level", "rise", "fall"])) for _ in range(rnd.randint(1, 7))]
         script = None
+        nest = lib.rng_for(case["seed"], case["idx"], 1354)
+        for k_ in range(len(pool)):
+            if nest.random() < 0.2:
+                # a member of this map may be the outgoing line of another monitor, which has an event map of its own
+                cem = event.EventMap()
+                for _ in range(nest.randint(1, 4)):
+                    cem.add(event.Source())
+                pool[k_] = event.Monitor(cem).src
     ids = {id(s): k for k, s in enumerate(pool)}
     lines, obs, fails = ["case"], [], []
     # the same sources may also sit in ANOTHER event map (in another order): that must not show here
